@@ -118,6 +118,9 @@ UClasses ==
    \* a pattern-properties field whose own name does not match its pattern, no additional-properties field
    PQ   |-> Cls("dataclass", << F("a", TInt),
                                 [FD("q", TMap(TStr, TInt), VDict(<<>>)) EXCEPT !.props = "pat", !.pat = "pz", !.dk = "fac"] >>),
+   \* an aggregate (flattened) field next to a regular field with a default FACTORY
+   FC   |-> Cls("dataclass", << F("c", TInt), [F("p", TObj("P1")) EXCEPT !.flat = TRUE],
+                                [FD("d", TColl("list", TInt), VList(<<>>)) EXCEPT !.dk = "fac"] >>),
    UF   |-> Cls("dataclass", << F("u", TUnion(<<TInt, TEnum("ES")>>)), FD("l", TUnion(<<TEnum("EI"), TStr>>), DStr("s")) >>),
    EF   |-> Cls("dataclass", << F("e", TEnum("EI")), FD("l", TLit(<<DStr("a"), DInt(2)>>), DStr("a")) >>)]
 
